@@ -17,7 +17,10 @@ and columns to `modal_shape`, and pads nodal arrays to `nodal_shape`.
   operations parameterised by the layout (`L`, column padding);
 * `recurrenceWeights`, `cosLatDDlat`, `secLatDDlatCos2` mirror `_derivative_recurrence_weights`
   (including `a[:, 0] = 0`, `b[:, -1] = 0` — the *last column of the layout*), and the two
-  latitude-derivative methods built on `jax_numpy_utils.shift`.
+  latitude-derivative methods built on `jax_numpy_utils.shift`;
+* `realWeights` / `fastWeights`, `real…` / `fast…` `CosLatDDlat`, `SecLatDDlatCos2`, `CosLatGrad`,
+  `DivCosLat`, `CurlCosLat`, `kCross` mirror the `Grid` methods over the respective implementation
+  (`clip` = the `clip` argument; `clip1` = `clip_wavenumbers` with its default `n = 1`).
 -/
 namespace Dino.SHEquiv
 open Dino.Lin Dino.SH
@@ -247,5 +250,82 @@ def cosLatDDlat (ls : List Nat) (a b x : List (List K)) : List (List K) :=
 /-- `Grid.sec_lat_d_dlat_cos2`: factors `(l - 1)` and `-(l + 2)` -/
 def secLatDDlatCos2 (ls : List Nat) (a b x : List (List K)) : List (List K) :=
   dDlatWith (ls.map fun (l : Nat) => (l : K) - 1) (ls.map fun (l : Nat) => -((l : K) + (1 + 1))) a b x
+
+/-! ### the `Grid` methods built on the latitude derivatives, per layout
+
+`realWeights` / `fastWeights` are `_derivative_recurrence_weights` of a `Grid` over the respective
+implementation (`modal_mesh` and `mask` of that layout).  The composites follow the code line by line:
+`raw = …/radius`, then `clip_wavenumbers(raw)` (`n = 1`, which never raises) when `clip`. -/
+
+def realWeights (sqrt : K → K) (M L : Nat) : List (List K) × List (List K) :=
+  recurrenceWeights sqrt (realMvals M) (lvals L 0) (realMask M L)
+
+def fastWeights (sqrt : K → K) (M L pr pc : Nat) : List (List K) × List (List K) :=
+  recurrenceWeights sqrt (fastMvals M pr) (lvals L pc) (fastMask M L pr pc)
+
+def realCosLatDDlat (sqrt : K → K) (M L : Nat) (x : List (List K)) : List (List K) :=
+  cosLatDDlat (lvals L 0) (realWeights sqrt M L).1 (realWeights sqrt M L).2 x
+
+def fastCosLatDDlat (sqrt : K → K) (M L pr pc : Nat) (x : List (List K)) : List (List K) :=
+  cosLatDDlat (lvals L pc) (fastWeights sqrt M L pr pc).1 (fastWeights sqrt M L pr pc).2 x
+
+def realSecLatDDlatCos2 (sqrt : K → K) (M L : Nat) (x : List (List K)) : List (List K) :=
+  secLatDDlatCos2 (lvals L 0) (realWeights sqrt M L).1 (realWeights sqrt M L).2 x
+
+def fastSecLatDDlatCos2 (sqrt : K → K) (M L pr pc : Nat) (x : List (List K)) : List (List K) :=
+  secLatDDlatCos2 (lvals L pc) (fastWeights sqrt M L pr pc).1 (fastWeights sqrt M L pr pc).2 x
+
+/-- `x / radius` -/
+def divAll (x : List (List K)) (r : K) : List (List K) := x.map fun row => row.map (· / r)
+
+def madd (a b : List (List K)) : List (List K) := List.zipWith vadd a b
+
+def msub (a b : List (List K)) : List (List K) := List.zipWith (List.zipWith (· - ·)) a b
+
+def mneg (a : List (List K)) : List (List K) := a.map fun row => row.map fun v => -v
+
+/-- `clip_wavenumbers(x)` with the default `n = 1` -/
+def clip1 (L padCols : Nat) (x : List (List K)) : List (List K) :=
+  mulLast x (clipMask (L + padCols) (1 + padCols))
+
+def clipIf (clip : Bool) (L padCols : Nat) (x : List (List K)) : List (List K) :=
+  if clip then clip1 L padCols x else x
+
+/-- `Grid.cos_lat_grad` over `RealSphericalHarmonics` -/
+def realCosLatGrad (sqrt : K → K) (M L : Nat) (r : K) (clip : Bool) (x : List (List K)) :
+    List (List K) × List (List K) :=
+  (clipIf clip L 0 (divAll (Fourier.realDerivative x L) r),
+   clipIf clip L 0 (divAll (realCosLatDDlat sqrt M L x) r))
+
+/-- `Grid.cos_lat_grad` over `FastSphericalHarmonics` -/
+def fastCosLatGrad (sqrt : K → K) (M L pr pc : Nat) (r : K) (clip : Bool) (x : List (List K)) :
+    List (List K) × List (List K) :=
+  (clipIf clip L pc (divAll (Fourier.zeroImagDerivative x (L + pc) 0) r),
+   clipIf clip L pc (divAll (fastCosLatDDlat sqrt M L pr pc x) r))
+
+/-- `Grid.div_cos_lat((u, v))`: `(d_dlon(u) + sec_lat_d_dlat_cos2(v)) / radius` -/
+def realDivCosLat (sqrt : K → K) (M L : Nat) (r : K) (clip : Bool) (u v : List (List K)) :
+    List (List K) :=
+  clipIf clip L 0 (divAll (madd (Fourier.realDerivative u L) (realSecLatDDlatCos2 sqrt M L v)) r)
+
+def fastDivCosLat (sqrt : K → K) (M L pr pc : Nat) (r : K) (clip : Bool) (u v : List (List K)) :
+    List (List K) :=
+  clipIf clip L pc
+    (divAll (madd (Fourier.zeroImagDerivative u (L + pc) 0) (fastSecLatDDlatCos2 sqrt M L pr pc v)) r)
+
+/-- `Grid.curl_cos_lat((u, v))`: `(d_dlon(v) - sec_lat_d_dlat_cos2(u)) / radius` -/
+def realCurlCosLat (sqrt : K → K) (M L : Nat) (r : K) (clip : Bool) (u v : List (List K)) :
+    List (List K) :=
+  clipIf clip L 0 (divAll (msub (Fourier.realDerivative v L) (realSecLatDDlatCos2 sqrt M L u)) r)
+
+def fastCurlCosLat (sqrt : K → K) (M L pr pc : Nat) (r : K) (clip : Bool) (u v : List (List K)) :
+    List (List K) :=
+  clipIf clip L pc
+    (divAll (msub (Fourier.zeroImagDerivative v (L + pc) 0) (fastSecLatDDlatCos2 sqrt M L pr pc u)) r)
+
+/-- `Grid.k_cross((u, v)) = (-v, u)` (layout independent) -/
+def kCross (u v : List (List K)) : List (List K) × List (List K) := (mneg v, u)
+
+/-! `Grid.integrate` is `Dino.SH.integrate` (layout independent: `einsum('y,…xy->…', w·r², z)`). -/
 
 end Dino.SHEquiv
